@@ -353,6 +353,9 @@ func (s *Solver) Values(ts []*Term) map[*Term]uint64 {
 	res := map[*Term]uint64{}
 	var q []*Term
 	for _, t := range ts {
+		if t == nil {
+			continue
+		}
 		if t.op == OConst {
 			res[t] = t.c
 			continue
